@@ -202,6 +202,11 @@ func (m *modernHandler) OnResourcePackResponse(bundle *ResponseBundle) (bool, er
 }
 
 func (m *modernHandler) HasPackAppliedByHash(hash []byte) bool {
+	if len(hash) == 0 {
+		// A pack without a hash cannot be recognised by its hash: an applied pack
+		// that has none either must not make every other hash-less pack look applied.
+		return false
+	}
 	m.RLock()
 	defer m.RUnlock()
 	for _, info := range m.appliedPacks {
